@@ -183,37 +183,40 @@ Definition rep_next (m : mode) (a : G) (lo : nat) (hi : option nat) (ctx : val) 
   | (OutOfFuel, s1) => (IOOF, c, s1)
   end.
 
+(* the item part of SeparatedBy::next; [before_sep] is the checkpoint taken before the separator *)
+Definition sep_item (m : mode) (a : G) (lo : nat) (trail : bool) (ctx : val) (c : nat)
+           (before_sep : ckpt) (s0 : st) : ires * nat * st :=
+  let before_item := save s0 in
+  match run m a ctx s0 with
+  | (Ok v, s1) => (ISome v, S c, s1)
+  | (Err, s1) =>
+      if Nat.ltb c lo then (IErr, c, rewind s1 before_sep)
+      else if trail then (INone, c, rewind s1 before_item)
+      else (INone, c, rewind s1 before_sep)
+  | (Panic k, s1) => (IPanic k, c, s1)
+  | (OutOfFuel, s1) => (IOOF, c, s1)
+  end.
+
 Definition sep_next (m : mode) (a sep : G) (lo : nat) (hi : option nat) (lead trail : bool)
            (ctx : val) (c : nat) (s : st) : ires * nat * st :=
   if at_cap c hi then (INone, c, s) else
   let before_sep := save s in
-  let item (s0 : st) : ires * nat * st :=
-    let before_item := save s0 in
-    match run m a ctx s0 with
-    | (Ok v, s1) => (ISome v, S c, s1)
-    | (Err, s1) =>
-        if Nat.ltb c lo then (IErr, c, rewind s1 before_sep)
-        else if trail then (INone, c, rewind s1 before_item)
-        else (INone, c, rewind s1 before_sep)
-    | (Panic k, s1) => (IPanic k, c, s1)
-    | (OutOfFuel, s1) => (IOOF, c, s1)
-    end in
   if andb (Nat.eqb c 0) lead then
     match run Check sep ctx s with
-    | (Ok _, s1) => item s1
-    | (Err, s1) => item (rewind s1 before_sep)
+    | (Ok _, s1) => sep_item m a lo trail ctx c before_sep s1
+    | (Err, s1) => sep_item m a lo trail ctx c before_sep (rewind s1 before_sep)
     | (Panic k, s1) => (IPanic k, c, s1)
     | (OutOfFuel, s1) => (IOOF, c, s1)
     end
   else if Nat.ltb 0 c then
     match run Check sep ctx s with
-    | (Ok _, s1) => item s1
+    | (Ok _, s1) => sep_item m a lo trail ctx c before_sep s1
     | (Err, s1) =>
         if Nat.ltb c lo then (IErr, c, rewind s1 before_sep) else (INone, c, rewind s1 before_sep)
     | (Panic k, s1) => (IPanic k, c, s1)
     | (OutOfFuel, s1) => (IOOF, c, s1)
     end
-  else item s.
+  else sep_item m a lo trail ctx c before_sep s.
 
 Definition cfg_or {A} (o : option A) (d : A) : A := match o with Some x => x | None => d end.
 
